@@ -590,6 +590,93 @@ class Model:
     def external_bases(self, c: ClassInfo) -> list:
         return [b for b in self.mro(c) if isinstance(b, str)]
 
+    # instance typing ---------------------------------------------------------
+    def instance_class(self, scope, e, _depth=0) -> Optional[ClassInfo]:
+        """Class of the object an expression evaluates to, when that is evident from a single
+        binding: `Cls(...)`; a module-level / local name bound exactly once to `Cls(...)`; the
+        first parameter of a method (its own class); `self.attr` bound in the class to `Cls(...)`.
+        Only internal classes; None when not evident."""
+        if _depth > 4:
+            return None
+        if isinstance(e, ast.Call):
+            t = self.resolve_expr_static(scope, e.func) if isinstance(e.func, (ast.Name, ast.Attribute)) else None
+            if isinstance(t, ClassInfo) and not self.is_metaclass(t):
+                return t
+            return None
+        if isinstance(e, ast.Name):
+            b = self.resolve_name(scope, e.id)
+            if b.kind == "modvar":
+                m, name = b.target
+                vals = m.assigns.get(name, [])
+                if len(vals) == 1 and vals[0] is not None:
+                    return self.instance_class(m, vals[0], _depth + 1)
+                return None
+            if b.kind in ("local", "freevar") and isinstance(b.owner, FuncInfo):
+                cache = self.__dict__.setdefault("_ic_cache", {})
+                ck = (id(b.owner), e.id)
+                if ck in cache:
+                    return cache[ck]
+                cache[ck] = None  # recursion guard
+                vals = []
+                for n in walk_scope(b.owner.node):
+                    if isinstance(n, ast.Assign):
+                        for t in n.targets:
+                            for x in ast.walk(t):
+                                if isinstance(x, ast.Name) and x.id == e.id and isinstance(x.ctx, ast.Store):
+                                    vals.append(n.value if t is x else None)
+                    elif isinstance(n, (ast.AnnAssign, ast.AugAssign, ast.NamedExpr)) and isinstance(n.target, ast.Name) and n.target.id == e.id:
+                        vals.append(getattr(n, "value", None) if isinstance(n, (ast.AnnAssign, ast.NamedExpr)) else None)
+                    elif isinstance(n, (ast.For, ast.AsyncFor, ast.comprehension)):
+                        for x in ast.walk(n.target):
+                            if isinstance(x, ast.Name) and x.id == e.id:
+                                vals.append(None)
+                    elif isinstance(n, ast.withitem) and n.optional_vars is not None:
+                        for x in ast.walk(n.optional_vars):
+                            if isinstance(x, ast.Name) and x.id == e.id:
+                                vals.append(None)
+                    elif isinstance(n, ast.ExceptHandler) and n.name == e.id:
+                        vals.append(None)
+                if len(vals) == 1 and vals[0] is not None:
+                    cache[ck] = self.instance_class(b.owner, vals[0], _depth + 1)
+                return cache[ck]
+            if b.kind in ("param", "freevar") and isinstance(b.owner, FuncInfo):
+                o = b.owner
+                if o.cls is not None and o.params and o.params[0] == e.id and not _is_static(o) and not _is_classmethod(o) \
+                        and not self.is_metaclass(o.cls):
+                    return o.cls
+            return None
+        if isinstance(e, ast.Attribute):
+            base = self.instance_class(scope, e.value, _depth + 1)
+            if base is not None:
+                vals = self.instance_attr_values(base, e.attr)
+                if len(vals) == 1 and vals[0][1] is not None:
+                    return self.instance_class(vals[0][0], vals[0][1], _depth + 1)
+            return None
+        return None
+
+    def instance_attr_values(self, c: ClassInfo, attr: str) -> list:
+        """All (method, value) pairs `self.<attr> = value` in the methods of class c (and its
+        internal bases); value None for non-plain stores."""
+        out = []
+        for k in self.mro(c):
+            if not isinstance(k, ClassInfo):
+                continue
+            for mth in k.methods.values():
+                if not mth.params or _is_static(mth):
+                    continue
+                me = mth.params[0]
+                for n in walk_scope(mth.node):
+                    tgts = []
+                    if isinstance(n, ast.Assign):
+                        tgts = [(t, n.value) for t in n.targets]
+                    elif isinstance(n, (ast.AnnAssign, ast.AugAssign)):
+                        tgts = [(n.target, getattr(n, "value", None) if isinstance(n, ast.AnnAssign) else None)]
+                    for t, v in tgts:
+                        for x in ([t] if not isinstance(t, (ast.Tuple, ast.List)) else t.elts):
+                            if isinstance(x, ast.Attribute) and x.attr == attr and isinstance(x.value, ast.Name) and x.value.id == me:
+                                out.append((mth, v if x is t else None))
+        return out
+
     # calls ------------------------------------------------------------------
     def enclosing_class(self, fn) -> Optional[ClassInfo]:
         s = fn
@@ -612,11 +699,15 @@ class Model:
                 return CallTarget("class", b.target, f.id)
             if b.kind in ("ext", "builtin"):
                 return CallTarget("ext", b.target, f.id)
-            if b.kind in ("param", "local", "freevar"):
+            if b.kind in ("param", "local", "freevar", "modvar"):
                 # a local that is only ever bound by a nested def was handled above;
+                # an object of an evident internal class is called through its __call__;
                 # anything else is a call through a variable
-                return CallTarget("callout", None, f.id)
-            if b.kind == "modvar":
+                ic = self.instance_class(scope, f)
+                if ic is not None:
+                    m = self.lookup_method(ic, "__call__")
+                    if m is not None:
+                        return CallTarget("func", m, f.id, recv=f)
                 return CallTarget("callout", None, f.id)
             return CallTarget("unknown", None, f.id)
         if isinstance(f, ast.Attribute):
@@ -657,6 +748,11 @@ class Model:
                 return CallTarget("class", st, f.attr)
             if isinstance(st, str):
                 return CallTarget("ext", st, f.attr)
+            ic = self.instance_class(scope, f.value) if scope is not None else None
+            if ic is not None:
+                m = self.lookup_method(ic, f.attr)
+                if m is not None:
+                    return CallTarget("func", m, f.attr, recv=f.value)
             return CallTarget("method", None, f.attr, recv=f.value)
         if isinstance(f, ast.Call):
             return CallTarget("callout", None, "<call-result>")
@@ -677,6 +773,13 @@ class Model:
 def _is_static(f: FuncInfo) -> bool:
     for d in f.decorators:
         if isinstance(d, ast.Name) and d.id == "staticmethod":
+            return True
+    return False
+
+
+def _is_classmethod(f: FuncInfo) -> bool:
+    for d in f.decorators:
+        if isinstance(d, ast.Name) and d.id == "classmethod":
             return True
     return False
 
